@@ -107,6 +107,32 @@ def c02_2(R):
         b = R.body(name)
         n += check_registered(R, b, "pending-registered:" + name.split("::")[-1], own)
     R.floor("Pending exit states in the four poll fns", n, 5)
+    # the registration primitive itself: whatever the slot held, it holds the CURRENT task's waker afterwards
+    # (keeping an old waker when the future moved to another task is a lost wake-up)
+    uw = R.body("utils::update_optional_waker")
+
+    def from_cx_waker(op):
+        t = trace(uw, op)
+        return t.kind == "call" and call_matches(t.root[1], ("std::task::Context::waker", "Context::waker")) and trace(uw, t.root[1].args[0]).kind == "param" and trace(uw, t.root[1].args[0]).root[1] == 2
+    stores = set()
+    for t in uw.calls():
+        if call_matches(t, ("Clone::clone_from",)) and len(t.args) == 2:
+            dst = trace(uw, t.args[0])
+            if dst.kind == "param" and dst.root[1] == 1 and from_cx_waker(t.args[1]):
+                stores.add(t.bb)
+        if call_matches(t, ("Option::replace", "Option::insert", "Option::get_or_insert")) and len(t.args) == 2:
+            dst = trace(uw, t.args[0])
+            if dst.kind == "param" and dst.root[1] == 1 and not dst.fields and from_cx_waker(t.args[1]):
+                stores.add(t.bb)
+    for s_ in uw.stmts():
+        if s_.place.local == 1 and s_.place.proj == ["*"] and s_.rv.kind == "agg" and s_.rv.j.get("variant") == "Some" and s_.rv.ops and from_cx_waker(s_.rv.ops[0]):
+            stores.add(s_.bb)
+    ok, bad = must_pass_blocks(uw, uw.return_blocks(), stores)
+    if stores and ok:
+        R.ok("registration-stores-current-waker", uw.name, "every path stores cx.waker() into the slot (clone_from / replace)")
+    else:
+        R.fail([uw.name, "path-without-store(cx.waker())"], "update_optional_waker can return without storing the current task's waker: a slot that already holds a waker keeps the old one, and a future that was moved to another task is never woken", where=uw.where(),
+               witness=path_lines(uw, shortest_path(uw, 0, uw.return_blocks(), removed_blocks=stores)), instance="registration-stores-current-waker")
 
 
 # ------------------------------------------------------------------------------------------------
